@@ -34,7 +34,7 @@ def one(meta_path):
         if rc != 0:
             res["status"] = "PATCH-DOES-NOT-APPLY"
             return res
-        for tier in ("quick", "thorough"):
+        for tier in (("quick",) if os.environ.get("RERUN_QUICK_ONLY") else ("quick", "thorough")):
             t0 = time.time()
             rc, o = sh([os.path.join(VERIF, "check"), prop, tier], cwd=VERIF, env=dict(ENV, VERIF_REPO=wt, VERIF_OUT=out))
             res[tier] = {"exit": rc, "s": round(time.time() - t0, 1)}
@@ -75,7 +75,7 @@ def main():
                 flag = "<== only thorough now (was quick)"
                 bad += 1
             print("%-4s %-52s %-8s %-22s %s %s" % (r["prop"], r["name"], r["status"], r.get("now", ""), r.get("sig", "")[:60], flag), flush=True)
-    json.dump(results, open(os.path.join(VERIF, "seeded", "last_rerun.json"), "w"), indent=1)
+    json.dump(results, open(os.path.join(os.environ.get("RERUN_OUT", os.path.join(VERIF, "seeded")), "last_rerun.json"), "w"), indent=1)
     print("seeded changes: %d, regressions: %d" % (len(results), bad))
     shutil.rmtree(ROOT, ignore_errors=True)
     return 1 if bad else 0
